@@ -63,8 +63,12 @@ def write_replay(prop, rf, reg):
            'OBLIGATION = %r' % rf['obligation'], 'MODEL = %r' % (model or {}), '']
     if src is None:
         src = 'print("no concrete failing input available for", OBLIGATION)\nsys.exit(2)\n'
+    wrapped = 'try:\n' + ''.join('    ' + ln + '\n' for ln in src.splitlines()) + \
+              'except SystemExit:\n    raise\nexcept BaseException as _e:\n' \
+              '    import traceback; traceback.print_exc()\n' \
+              '    print("replay script failed (not a reproduction)"); sys.exit(3)\n'
     with open(path, 'w') as f:
-        f.write('\n'.join(header) + '\n' + '\n'.join(pre) + '\n' + src)
+        f.write('\n'.join(header) + '\n' + '\n'.join(pre) + '\n' + wrapped)
     reproduced = False
     out = ''
     try:
